@@ -28,6 +28,7 @@ mod c11;
 mod c12;
 mod c13;
 mod c14;
+mod c15;
 mod c16;
 mod c17;
 mod c18;
@@ -136,6 +137,7 @@ fn gen(prop: &str, tier: &str, seed: u64) -> Vec<String> {
         "C12" => c12::gen(tier, &mut r),
         "C13" => c13::gen(tier, &mut r),
         "C14" => c14::gen(tier, &mut r),
+        "C15" => c15::gen(tier, &mut r),
         "C16" => c16::gen(tier, &mut r),
         "C17" => c17::gen(tier, &mut r),
         "C18" => c18::gen(tier, &mut r),
@@ -159,6 +161,7 @@ fn exec(prop: &str, case: &str) -> Exec {
         "C12" => c12::exec(case),
         "C13" => c13::exec(case),
         "C14" => c14::exec(case),
+        "C15" => c15::exec(case),
         "C16" => c16::exec(case),
         "C17" => c17::exec(case),
         "C18" => c18::exec(case),
